@@ -121,7 +121,8 @@ func complete(input string) bool {
 		}
 	}
 
-	return blocksOpen == 0 && bracketsOpen == 0
+	// a closer without an opener can never be completed by further input: let the parser report it
+	return blocksOpen <= 0 && bracketsOpen <= 0
 }
 
 func processInput(input string, p Parser, vm *vm.Type, doOut bool) {
